@@ -143,7 +143,7 @@ theorem callCb_procs (U : Universe) (s : St) (o : Obj) (m : String) (e : Entry) 
 theorem deliverPlain_tables (U : Universe) (s : St) (ev args : String) :
     SameTables s (deliverPlain U s ev args).1 := by
   unfold deliverPlain
-  generalize Proto.sortNats s.registered = l
+  generalize s.registered = l
   suffices H : ∀ (acc : St × Outcome), SameTables s acc.1 →
       SameTables s (l.foldl (fun (acc : St × Outcome) o =>
         match acc.2 with
